@@ -2082,8 +2082,15 @@ func RuleFC1(c *Ctx) {
 					if tv, ok := info.Types[last]; ok && tv.IsNil() {
 						return "accept"
 					}
-					if _, isCall := ast.Unparen(last).(*ast.CallExpr); isCall {
-						return "reject"
+					// an error being constructed here (Errorf, errors.New, KeywordError ...); a
+					// call that merely hands on another function's verdict decides nothing
+					if call, isCall := ast.Unparen(last).(*ast.CallExpr); isCall && len(s.Results) >= 1 {
+						if g := Callee(info, call); g != nil {
+							nm := g.Name()
+							if strings.Contains(nm, "Error") || (g.Pkg() != nil && g.Pkg().Path() == "errors" && nm == "New") {
+								return "reject"
+							}
+						}
 					}
 					return ""
 				}
